@@ -1,7 +1,8 @@
 (* Harness cases for the PEP 440 work package: the parser model, the canonical form
    round trip and (further down) the declarative specification.
    The dump printed for a parsed version has the shape of semver.VerifDump. *)
-From DepsDev Require Import Lib.Base Lib.Sx Semver.Version Semver.Pep440 Semver.Pep440Parse Semver.Compare.
+From DepsDev Require Import Lib.Base Lib.Sx Lib.Order Semver.Version Semver.Pep440 Semver.Pep440Parse Semver.Compare
+  Spec.Pep440Spec Semver.Pep440Abs.
 Local Open Scope Z_scope.
 
 Definition enc_ext (e : extension) : sx :=
@@ -42,6 +43,52 @@ Definition canon_case (s : bytes) : sx :=
   | OutOfFuel => SL [SB sym_fuel]
   end.
 
+(* ---------- the reference: packaging's key, normal form, domain flags ---------- *)
+Definition sym_rej : bytes := [114;101;106]%N.
+
+Definition enc_lseg (x : lseg) : sx :=
+  match x with
+  | LNum n => SL [SI n; SB []]
+  | LStr t => SL [SI (-1); SB t]
+  end.
+
+(* (epoch (release without trailing zeros) (suffix) has_local (local key)) = Version._key *)
+Definition enc_key (p : pv) : sx :=
+  SL [SI (s_epoch p); SL (map SI (trim0 (s_release p)));
+      SL [SI (pre_rank p); SI (pre_n p); SI (post_rank p); SI (post_n p); SI (dev_rank p); SI (dev_n p)];
+      sx_bool (match s_local p with Some _ => true | None => false end);
+      SL (match local_key p with Some l => map enc_lseg l | None => [] end)].
+
+Definition enc_spec (s : bytes) : sx :=
+  match spec_parse s with
+  | Some p => SL [SB sym_ok; SB (spec_normal p); sx_bool (c02_pypi_dom p); sx_bool (pv_wfb p); enc_key p; sx_bool (c02_dom_width p)]
+  | None => SL [SB sym_rej]
+  end.
+
+Definition sgn_sx (z : Z) : sx := SI (Z.sgn z).
+
+(* pool: for every string the reference result and whether the model parser accepts;
+   then, over the strings accepted by both (in order), the matrix of
+   (reference comparison, sign of the model comparison) *)
+Definition c02_pool (strs : list bytes) : sx :=
+  let both :=
+    flat_map (fun s => match spec_parse s, parse_pypi s with
+                       | Some p, Ok v => [(p, v)]
+                       | _, _ => []
+                       end) strs in
+  SL [SL (map enc_spec strs);
+      SL (map (fun s => match parse_pypi s with Ok _ => SB sym_ok | _ => SB sym_err end) strs);
+      SL (flat_map (fun a => flat_map (fun b =>
+            [SI (spec_compare (fst a) (fst b));
+             match compare (snd a) (snd b) with Ok z => sgn_sx z | _ => SB sym_panic end]) both) both)].
+
+Fixpoint decode_strs (l : list sx) : option (list bytes) :=
+  match l with
+  | [] => Some []
+  | SB b :: t => match decode_strs t with Some r => Some (b :: r) | None => None end
+  | _ => None
+  end.
+
 Definition run_Pep440 (kind : bytes) (a : sx) : option sx :=
   if bytes_eqb kind [115;118;109;95;112;97;114;115;101;95;112;121;112;105]%N (* svm_parse_pypi *) then
     Some (match a with
@@ -54,5 +101,20 @@ Definition run_Pep440 (kind : bytes) (a : sx) : option sx :=
   else if bytes_eqb kind [115;118;109;95;99;97;110;111;110;118;101;114;115;105;111;110]%N (* svm_canonversion *) then
     Some (match a with
           | SL [SB s] => SB (canon_version s)
+          | _ => badcase end)
+  else if bytes_eqb kind [115;118;109;95;99;48;50;95;112;111;111;108]%N (* svm_c02_pool *) then
+    Some (match a with
+          | SL [SL l] => match decode_strs l with Some strs => c02_pool strs | None => badcase end
+          | _ => badcase end)
+  else if bytes_eqb kind [115;118;109;95;115;112;101;99;95;112;121;112;105]%N (* svm_spec_pypi *) then
+    Some (match a with
+          | SL [SB s] => enc_spec s
+          | _ => badcase end)
+  else if bytes_eqb kind [115;118;109;95;99;49;48;95;100;111;109]%N (* svm_c10_dom *) then
+    Some (match a with
+          | SL [SB s] => match parse_pypi s with
+                         | Ok v => sx_bool (c10_pypi_dom (v_num v) (match v_ext v with Pep440Ext e => e | _ => None end))
+                         | _ => SL [SB sym_err]
+                         end
           | _ => badcase end)
   else None.
